@@ -2228,7 +2228,16 @@ def t_grammar_atomic(facts, res, tier):
             return False
         k = e.get("k")
         if k == "seq":
-            return True
+            # predicates consume nothing: `!guard ~ "const"` is one token
+            parts = []
+            def flat(x):
+                if isinstance(x, dict) and x.get("k") == "seq":
+                    flat(x["a"]); flat(x["b"])
+                else:
+                    parts.append(x)
+            flat(e)
+            parts = [x for x in parts if not (isinstance(x, dict) and x.get("k") in ("negpred", "pospred"))]
+            return len(parts) >= 2 or any(is_multi(x) for x in parts)
         if k in ("opt", "rep", "rep1", "repn"):
             return is_multi(e["e"])
         if k == "choice":
